@@ -356,4 +356,6 @@ WITNESSES = [
     {"id": "C17.w-init-accepts-zero-expire", "rule": "C17.R4", "file": "rtrlib/rtr/rtr.c",
      "old": "\t    rtr_check_interval_range(expire_interval, RTR_EXPIRATION_MIN, RTR_EXPIRATION_MAX) !=\n\t\t    RTR_INSIDE_INTERVAL_RANGE ||",
      "new": "\t    (expire_interval != 0 &&\n\t     rtr_check_interval_range(expire_interval, RTR_EXPIRATION_MIN, RTR_EXPIRATION_MAX) !=\n\t\t     RTR_INSIDE_INTERVAL_RANGE) ||"},
+    {"id": "C17.w-tcp-recv-always-blocking", "rule": "C17.R5", "file": "rtrlib/transport/tcp/tcp_transport.c",
+     "old": "\tif (timeout == 0) {\n\t\trtval = recv(tcp_socket->socket, pdu, len, MSG_DONTWAIT);", "new": "\tif (timeout < 0) {\n\t\trtval = recv(tcp_socket->socket, pdu, len, MSG_DONTWAIT);"},
 ]
